@@ -136,6 +136,8 @@ class PbnWriter(Writer):
         self.write_tag_pair('Result',
                             '' if contract.is_passed_out() else str(
                                 taken_tricks))
+        # An empty line ends the game (games are separated by empty lines).
+        self.writer.write('\n')
         # TODO: Implement optional fields.
 
 
